@@ -246,6 +246,10 @@ class Exec:
                         if not rec(q, ("field", v, nm) if not nm.isdigit() else mk_proj(v, int(nm))):
                             return False
                     return True
+                if isinstance(v, tuple) and v and v[0] == "call" and v[1] != path and self._is_enum_variant(v[1]) and v[1].rsplit("::", 1)[0] == path.rsplit("::", 1)[0]:
+                    return False        # a value built by another constructor of the same enum
+                if isinstance(v, tuple) and v and v[0] == "call" and v[1] == path and len(v[2]) == len(p.get("ps") or []) and not p.get("fs"):
+                    v = ("var", path, v[2])
                 if isinstance(v, tuple) and v and v[0] == "var":
                     if v[1] != path:
                         return False
@@ -952,3 +956,89 @@ def const_nest(E, t):
     if isinstance(t, tuple) and t and t[0] == "lit":
         return [], t
     return None
+
+
+def lin(t):
+    """linear normal form of an integer-valued term: ({repr(atom): coefficient}, constant); products with a literal factor are
+    distributed, anything else is an atom.  Two index expressions with equal forms are equal for all values (wrapping aside:
+    `len - i - 1` and `len - 1 - i` agree whenever neither underflows, and rustc's overflow checks make underflow a panic)."""
+    from fractions import Fraction
+
+    def add(a, b, k=1):
+        out = dict(a[0])
+        for key, v in b[0].items():
+            out[key] = out.get(key, 0) + k * v
+            if out[key] == 0:
+                del out[key]
+        return out, a[1] + k * b[1]
+
+    def rec(x):
+        if isinstance(x, tuple) and x:
+            if x[0] == "lit":
+                v = str(x[1]).replace("_", "")
+                for suf in ("usize", "isize", "u64", "i64", "u32", "i32", "u16", "i16", "u8", "i8"):
+                    if v.endswith(suf):
+                        v = v[:-len(suf)]
+                if v.lstrip("-").isdigit():
+                    return {}, int(v)
+            if x[0] == "bin" and x[1] in ("Add", "Sub"):
+                return add(rec(x[2]), rec(x[3]), 1 if x[1] == "Add" else -1)
+            if x[0] == "bin" and x[1] == "Mul":
+                a, b = rec(x[2]), rec(x[3])
+                if not a[0]:
+                    return {k: v * a[1] for k, v in b[0].items() if v * a[1] != 0}, a[1] * b[1]
+                if not b[0]:
+                    return {k: v * b[1] for k, v in a[0].items() if v * b[1] != 0}, a[1] * b[1]
+            if x[0] == "un" and x[1] == "Deref":
+                return rec(x[2])
+        return {repr(x): 1}, 0
+    return rec(t)
+
+
+def seq_walk(src, lid, X):
+    """How the loop `lid` iterating `src` walks the sequence X.  Recognised sources (views like iter()/iter_mut() are transparent):
+         X | rev(X) | enumerate(X) | enumerate(rev(X))          element = the (second component of the) loop element
+         0..len(X) | rev(0..len(X)) [| enumerate of those]       element = X[j]  or  X[len(X) - 1 - j]  for the index j
+    -> {"fwd": pred | None, "rev": pred | None, "pos": {"fwd": lin | None, "rev": lin | None}} where pred(term) says whether a term
+    denotes the current element of a forward / reverse walk and pos is the linear form of its position in X;  None if unrelated."""
+    el = ("elem", src, lid)
+    en = is_call(src, "enumerate", 1)
+    base = en[0] if en else src
+    item = ("proj", el, 1) if en else el
+    cnt = ("proj", el, 0) if en else None
+    rv = is_call(base, "rev", 1)
+    inner = rv[0] if rv else base
+    LEN = ("call", "std::vec::Vec::<T, A>::len", (X,))
+    out = {"fwd": None, "rev": None, "pos": {"fwd": None, "rev": None}}
+
+    def minus(a, b):
+        return mk_bin("Sub", mk_bin("Sub", a, b), ("lit", "1"))
+    if strip_upd(inner) == X:
+        d = "rev" if rv else "fwd"
+        out[d] = lambda t, item=item: strip_upd(t) == strip_upd(item)
+        if cnt is not None:
+            out["pos"][d] = lin(minus(LEN, cnt)) if rv else lin(cnt)
+        return out
+    rng = range_of(inner)
+    if rng is not None and rng[0] == ("lit", "0") and lin(strip_upd(rng[1])) == lin(LEN):
+        j = item
+        same = lambda t, j=j: isinstance(t, tuple) and len(t) == 3 and t[0] == "idx" and strip_upd(t[1]) == X and lin(strip_upd(t[2])) == lin(strip_upd(j))
+        flip = lambda t, j=j: isinstance(t, tuple) and len(t) == 3 and t[0] == "idx" and strip_upd(t[1]) == X and lin(strip_upd(t[2])) == lin(minus(LEN, strip_upd(j)))
+        if rv:
+            out["rev"], out["fwd"] = same, flip
+            out["pos"]["rev"], out["pos"]["fwd"] = lin(j), lin(minus(LEN, j))
+        else:
+            out["fwd"], out["rev"] = same, flip
+            out["pos"]["fwd"], out["pos"]["rev"] = lin(j), lin(minus(LEN, j))
+        return out
+    return None
+
+
+def walk_element(paths, pred):
+    """the scrutinee term of a variant test on the paths that `pred` recognises as the walk's current element (None if none / ambiguous)"""
+    found = set()
+    for p in paths:
+        for (t, pol) in p.pc:
+            if isinstance(t, tuple) and t and t[0] == "is" and pred(t[1]):
+                found.add(t[1])
+    return list(found)[0] if len(found) == 1 else None
